@@ -35,7 +35,16 @@ pub const ADDRS: [&str; 21] = [
     "updater", "keeper", "nobody", "user0", "user1", "user2", "user3", "user4", "user5", "user6",
     "user7",
 ];
-pub const VALS: [&str; 8] = ["val0", "val1", "val2", "val3", "val4", "val5", "val6", "val7"];
+/// The validators of the chain.  Name `val`+c has the model id = index of c in `VAL_ALPHABET`; the
+/// byte order of the names (the order in which the contracts' storage maps iterate) is the order of
+/// the ids.
+pub const VALS: [&str; 12] = [
+    "val0", "val1", "val2", "val3", "val4", "val5", "val6", "val7", "val8", "val9", "vala", "valb",
+];
+/// Validator names are `val` + one character of this alphabet (ascending byte order); the first
+/// `VALS.len()` exist on the chain, the others (`valx`, `valy` in generated histories) may appear
+/// inside contract messages only ("validator not on chain").
+pub const VAL_ALPHABET: &str = "0123456789abcdefghijklmnopqrstuvwxyz";
 pub const DENOMS: [&str; 4] = ["uAtom", "ujunk", "usei", "uusd"];
 pub const BOND_DENOM: &str = "usei";
 
@@ -409,7 +418,7 @@ pub struct World {
     /// (delegator, validator index, denom index) -> pending reward
     pub pending: BTreeMap<(String, usize, usize), u128>,
     pub withdraw_addr: BTreeMap<String, String>,
-    pub can_redelegate: [bool; 8],
+    pub can_redelegate: [bool; VALS.len()],
     pub now: u64,
     pub ut: u64,
     pub price: u128,
@@ -427,7 +436,7 @@ impl World {
             unbonding: Vec::new(),
             pending: BTreeMap::new(),
             withdraw_addr: BTreeMap::new(),
-            can_redelegate: [true; 8],
+            can_redelegate: [true; VALS.len()],
             now: START_TIME,
             ut,
             price: ONE,
